@@ -172,7 +172,172 @@ pub fn build(rng: &mut Rng, n_glyphs: usize) -> Vec<u8> {
     fb.build()
 }
 
+/// Polygon-only fonts for the correspondence of Model/Scale.lean: every glyph is made of on-curve
+/// points only, so the drawn path lists exactly the scaled points (`M p0 L p1 … Z` per contour).
+struct Polygons {
+    upem: u16,
+    data: Vec<u8>,
+    /// per glyph (gid = index + 1): flattened points, xMin, lsb, advance
+    glyphs: Vec<(Vec<(i16, i16)>, i16, i16, u16)>,
+}
+
+fn polygon_font(rng: &mut Rng, n_glyphs: usize) -> Polygons {
+    let upem = *rng.pick(&[64u16, 1000, 1000, 1024, 2048, 2048, 4096, 16384]);
+    let mut b = GlyfLocaBuilder::new();
+    b.add_glyph(&Glyph::Empty).unwrap();
+    let mut glyphs = vec![];
+    let mut max_points = 0;
+    let mut metrics = vec![LongMetric::new(upem / 2, 0)];
+    for _ in 1..n_glyphs {
+        let n_contours = 1 + rng.below(3) as usize;
+        let mut contours = vec![];
+        let mut flat = vec![];
+        for _ in 0..n_contours {
+            let n = 1 + rng.below(8) as usize;
+            let pts: Vec<CurvePoint> = (0..n).map(|_| CurvePoint::new(coord(rng, upem), coord(rng, upem), true)).collect();
+            flat.extend(pts.iter().map(|p| (p.x, p.y)));
+            contours.push(Contour::from(pts));
+        }
+        let mut g = SimpleGlyph { bbox: Bbox::default(), contours, instructions: vec![] };
+        g.recompute_bounding_box();
+        if rng.chance(1, 4) {
+            g.bbox.x_min = g.bbox.x_min.saturating_add(rng.range(-300, 300) as i16);
+        }
+        let lsb = match rng.below(4) {
+            0 => g.bbox.x_min, // pp1 = 0: no shift
+            1 => coord(rng, upem),
+            _ => g.bbox.x_min.saturating_sub(rng.range(-200, 200) as i16),
+        };
+        let adv = match rng.below(6) {
+            0 => 0,
+            1 => *rng.pick(&[1u16, 65535, 32768, 32767]),
+            _ => rng.below(2 * upem as u64 + 1) as u16,
+        };
+        max_points = max_points.max(flat.len());
+        metrics.push(LongMetric::new(adv, lsb));
+        glyphs.push((flat, g.bbox.x_min, lsb, adv));
+        b.add_glyph(&g).unwrap();
+    }
+    let (glyf, loca, fmt) = b.build();
+    let n = n_glyphs as u16;
+    let head = Head { units_per_em: upem, index_to_loc_format: fmt as i16, magic_number: 0x5F0F3CF5, ..Default::default() };
+    let maxp = Maxp {
+        num_glyphs: n,
+        max_points: Some(max_points as u16),
+        max_contours: Some(3),
+        max_composite_points: Some(0),
+        max_composite_contours: Some(0),
+        max_zones: Some(2),
+        max_twilight_points: Some(0),
+        max_storage: Some(0),
+        max_function_defs: Some(0),
+        max_instruction_defs: Some(0),
+        max_stack_elements: Some(0),
+        max_size_of_instructions: Some(0),
+        max_component_elements: Some(0),
+        max_component_depth: Some(0),
+    };
+    let hhea = Hhea { number_of_h_metrics: n, ascender: (upem as i16 / 5 * 4).into(), descender: (-(upem as i16) / 5).into(), ..Default::default() };
+    let hmtx = Hmtx::new(metrics, vec![]);
+    let mut fb = write_fonts::FontBuilder::new();
+    fb.add_table(&head).unwrap();
+    fb.add_table(&maxp).unwrap();
+    fb.add_table(&hhea).unwrap();
+    fb.add_table(&hmtx).unwrap();
+    fb.add_table(&glyf).unwrap();
+    fb.add_table(&loca).unwrap();
+    Polygons { upem, data: fb.build(), glyphs }
+}
+
+/// `value * 64` of a pen coordinate, when the f32 still holds the 26.6 integer exactly
+fn bits(v: f32) -> Option<i64> {
+    let b = (v as f64) * 64.0;
+    if b.abs() < 16_777_216.0 && b.fract() == 0.0 { Some(b as i64) } else { None }
+}
+
+fn scale_correspondence(cfg: &Config, s: &mut Session) {
+    use skrifa::outline::{pen::PathElement, DrawSettings};
+    use skrifa::prelude::{LocationRef, Size};
+    use skrifa::MetadataProvider;
+    let mut rng = Rng::new(cfg.seed ^ 0x5CA1E);
+    let (fonts, glyphs) = if cfg.thorough() { (60, 40) } else { (10, 24) };
+    let lib = freetype::Library::init().unwrap();
+    for _ in 0..fonts {
+        let pf = polygon_font(&mut rng, glyphs);
+        let Ok(mut face) = lib.new_memory_face2(pf.data.clone(), 0) else {
+            s.count("scale:freetype-open-failed");
+            continue;
+        };
+        let font = skrifa::raw::FontRef::new(&pf.data).unwrap();
+        let outlines = font.outline_glyphs();
+        let ppems: Vec<u32> = {
+            let mut v = vec![1u32, 7, 12, 13, 16, 31, 50, 113, 255];
+            v.push(1 + rng.below(300) as u32);
+            v
+        };
+        for &ppem in &ppems {
+            if face.set_pixel_sizes(ppem, ppem).is_err() {
+                s.count("scale:set-size-failed");
+                continue;
+            }
+            let p = ppem as i64 * 64;
+            for (i, (pts, x_min, lsb, adv)) in pf.glyphs.iter().enumerate() {
+                let gid = i as u32 + 1;
+                let args = format!(
+                    "{p} {} {x_min} {lsb} {adv} {}",
+                    pf.upem,
+                    pts.iter().map(|(x, y)| format!("{x} {y}")).collect::<Vec<_>>().join(" ")
+                );
+                // FreeType, real
+                use freetype::face::LoadFlag;
+                let ft: Option<(i64, Vec<(i64, i64)>)> = face.load_glyph(gid, LoadFlag::NO_BITMAP | LoadFlag::NO_HINTING).ok().map(|_| {
+                    let raw = face.glyph().raw();
+                    let o = &raw.outline;
+                    let v = unsafe { std::slice::from_raw_parts(o.points, o.n_points as usize) };
+                    (raw.metrics.horiAdvance as i64, v.iter().map(|q| (q.x as i64, q.y as i64)).collect())
+                });
+                // skrifa, real
+                let sk: Option<(i64, Vec<(i64, i64)>)> = (|| {
+                    let g = outlines.get(skrifa::GlyphId::new(gid))?;
+                    let mut path: Vec<PathElement> = vec![];
+                    let m = catch(|| g.draw(DrawSettings::unhinted(Size::new(ppem as f32), LocationRef::default()), &mut path)).ok()?.ok()?;
+                    let mut out = vec![];
+                    for e in &path {
+                        match e {
+                            PathElement::MoveTo { x, y } | PathElement::LineTo { x, y } => out.push((bits(*x)?, bits(*y)?)),
+                            PathElement::Close => {}
+                            _ => return None,
+                        }
+                    }
+                    Some((bits(m.advance_width?)?, out))
+                })();
+                let render = |r: &(i64, Vec<(i64, i64)>)| {
+                    let mut v = vec![r.0];
+                    for (x, y) in &r.1 {
+                        v.push(*x);
+                        v.push(*y);
+                    }
+                    join(&v)
+                };
+                match &ft {
+                    Some(r) if r.1.len() == pts.len() => s.case("ft.simple", format!("ft.simple {args}"), render(r)),
+                    _ => s.count("scale:freetype-no-result"),
+                }
+                match &sk {
+                    Some(r) if r.1.len() == pts.len() => s.case("sk.simple", format!("sk.simple {args}"), render(r)),
+                    _ => s.count("scale:skrifa-no-exact-result"),
+                }
+                if let (Some(a), Some(b)) = (&ft, &sk) {
+                    s.oracle("scale:skrifa-points-and-advance==freetype", a == b,
+                        || format!("upem={} ppem={ppem} gid={gid} {args}", pf.upem), || format!("freetype {} skrifa {}", render(a), render(b)));
+                }
+            }
+        }
+    }
+}
+
 pub fn run(cfg: &Config, s: &mut Session) {
+    scale_correspondence(cfg, s);
     use fauntlet::{Hinting, HintingTarget::*};
     let mut rng = Rng::new(cfg.seed ^ 0x5E0_AE7);
     let dir = std::path::PathBuf::from(format!("/tmp/c03-geom-{}-{}", cfg.seed, std::process::id()));
